@@ -109,6 +109,9 @@ def read_index(path):
         except sqlite3.OperationalError as ex:
             if "no such table" in str(ex):  # killed while the index was being created: no rows
                 return []
+            if "no such column" in str(ex):  # format 1 (Conductor <= 0.4): no commit / dirty columns
+                return sorted(((r[0], r[1], None, 0) for r in conn.execute("SELECT task_identifier, timestamp FROM version_index").fetchall()),
+                              key=lambda r: (r[0], r[1]))
             raise
     finally:
         conn.close()
